@@ -19,6 +19,11 @@ remove, fsync) is materialised and loaded with the real ConfigManager.load: it m
 the old or the new configuration; afterwards a fresh save on the crashed directory must
 succeed and load as the new configuration (a stale temp file must not be in the way).
 
+Part 3 (locale axis): a few dozen configurations with non-ASCII / control / lone-surrogate text values are
+saved and loaded in {this process, a child interpreter with an ASCII locale encoding} in all four
+combinations; every combination must load an equal configuration (the file must not depend on the locale
+of the process that wrote it).
+
 The user config dir is redirected by rebinding `yowsup.common.tools.user_config_dir`; the
 real home directory is never touched (the redirect raises when no scratch root is set).
 """
@@ -763,6 +768,252 @@ def crash_pair(pair):
     return tally.result(), stats
 
 
+# --------------------------------------------------------------------------- part 3: locale axis
+# The statement has no "in the same process, under the same locale" clause: a configuration written by one
+# process (e.g. an interactive UTF-8 shell running yowsup-cli registration) is loaded by another (e.g. a service
+# started with LC_ALL=C).  Save and load therefore each run in {host = this process, ascii = a child interpreter
+# whose locale encoding is ASCII}; every one of the four combinations must round-trip every value of the stated
+# domain (JSON: arbitrary unicode incl. a lone surrogate; key=value: printable text).
+ASCII_ENV = {"LC_ALL": "C", "LANG": "C", "PYTHONUTF8": "0", "PYTHONCOERCECLOCALE": "0"}
+COMBOS = [("host", "host"), ("host", "ascii"), ("ascii", "host"), ("ascii", "ascii")]
+TEXT_FIELDS = ["phone", "cc", "login", "password", "pushname", "mcc", "mnc", "sim_mcc", "sim_mnc", "fdid", "chat_dns_domain"]
+KP_MASK = 1 << FIELDS.index("client_static_keypair")
+LOCALE_TEXT = [
+    ("latin1", "Zo\u00e9"), ("latin1-edge", "\u00ff\u00e0"), ("cjk", "\u540d\u524d"), ("astral", "Zo\u00eb \U0001F680"),
+    ("arabic-digits", "\u0662\u0666\u0662"), ("replacement", "a\ufffdb"), ("combining", "e\u0301"),
+    ("c1-control", "a\u0080\u009fb"), ("nbsp-bidi", "a\u00a0\u202eb"), ("line-sep", "a\u2028\u2029b"),
+    ("lone-high-surrogate", "Zo\u00eb \ud83d"), ("lone-low-surrogate", "\udc00x"), ("reversed-pair", "a\ude00\ud83db"),
+]
+SURROGATE_OV = {"pushname": "Zo\u00eb \ud83d", "chat_dns_domain": "\udc00.example", "fdid": "x\udfff", "password": "\ud800\ud800"}
+
+
+def in_keyval_domain(text):
+    return all(keyval_ok(ch) for ch in text) and text == text.strip()
+
+
+def locale_specs(quick):
+    specs = []
+
+    def add(fmt, mask, vi, ov, tag):
+        specs.append({"fmt": fmt, "mask": mask, "vi": vi, "ov": ov, "tag": tag})
+
+    for tag, text in LOCALE_TEXT:
+        add(JSON, MIN_MASK | 1 << FIELDS.index("pushname"), 0, {"pushname": text}, tag)
+        if in_keyval_domain(text):
+            add(KEYVAL, MIN_MASK | 1 << FIELDS.index("pushname"), 0, {"pushname": text}, tag)
+    for name in TEXT_FIELDS:
+        for fmt in (JSON, KEYVAL):
+            add(fmt, KP_MASK | 1 << FIELDS.index(name), 0, {name: "Zo\u00eb\U0001F680"}, "only-" + name)
+    # whole value vectors last: the case kept per signature is then the smallest one
+    for fmt in (JSON, KEYVAL):
+        for vi in range(NV):
+            add(fmt, FULL, vi, None, "vector%d" % vi)
+    add(JSON, FULL, 0, SURROGATE_OV, "lone-surrogates")
+    if not quick:
+        # one code point out of every 2048 (and the last of each plane) as push name
+        cps = sorted(set(range(0x80, 0x110000, 2048)) | set(range(0xFFFF, 0x110000, 0x10000)) | {0x7F, 0x80, 0xFF, 0x100, 0x7FF, 0x800})
+        for cp in cps:
+            text = "a" + chr(cp) + "b"
+            add(JSON, KP_MASK | 1 << FIELDS.index("pushname"), 0, {"pushname": text}, "U+%04X" % cp)
+            if in_keyval_domain(text):
+                add(KEYVAL, KP_MASK | 1 << FIELDS.index("pushname"), 0, {"pushname": text}, "U+%04X" % cp)
+    for i, sp in enumerate(specs):
+        sp["id"] = i
+    return specs
+
+
+def loc_values(spec):
+    return values_for(spec["mask"], spec["vi"], spec["fmt"], override=spec["ov"])
+
+
+def loc_root(base, spec, combo):
+    return os.path.join(base, "%d-%s-%s" % (spec["id"], combo[0], combo[1]))
+
+
+def loc_paths(root, fmt):
+    files = os.path.join(root, "files")
+    return {"profile": "491234567890", "path-ext": os.path.join(files, "acct." + EXT[fmt]),
+            "path-noext": os.path.join(files, "acct")}
+
+
+def err_json(e):
+    return [exc_name(e), emsg(e, 160)]
+
+
+def loc_save(base, spec, combo):
+    """Save spec's configuration below base/<id>-<save>-<load> through the real code.  -> {path: None | [exc, msg]}"""
+    root = loc_root(base, spec, combo)
+    os.makedirs(os.path.join(root, "files"))
+    prev = _ROOT[0]
+    set_root(os.path.join(root, "cfg"))
+    out = {}
+    try:
+        mgr = ConfigManager()
+        fmt = spec["fmt"]
+        cfg = make_config(loc_values(spec))
+        for label, target in loc_paths(root, fmt).items():
+            try:
+                if label == "profile":
+                    try:
+                        mgr.save(target, cfg, TYPE[fmt])
+                    except FileNotFoundError:       # first-save defect of older trees: reported by part 1
+                        os.makedirs(profile_dir(target), exist_ok=True)
+                        mgr.save(target, cfg, TYPE[fmt])
+                else:
+                    try:
+                        mgr.save("unused", cfg, TYPE[fmt], dest=target)
+                    except TypeError:               # save(dest=) defect of older trees: reported by part 1
+                        write_text(target, mgr.config_to_str(cfg, TYPE[fmt]))
+                out[label] = None
+            except Exception as e:
+                out[label] = err_json(e)
+    finally:
+        set_root(prev)
+    return out
+
+
+def loc_load(base, spec, combo, saved):
+    """Load what loc_save left, compare field-wise.  -> {path: None (equal) | [kind, ...]}"""
+    root = loc_root(base, spec, combo)
+    prev = _ROOT[0]
+    set_root(os.path.join(root, "cfg"))
+    out = {}
+    try:
+        mgr = ConfigManager()
+        want = want_obs(loc_values(spec))
+        for label, target in loc_paths(root, spec["fmt"]).items():
+            if saved.get(label) is not None:
+                continue                    # nothing was saved there; the save failure is reported
+            try:
+                cfg = mgr.load(target)
+            except Exception as e:
+                out[label] = ["load-raises"] + err_json(e)
+                continue
+            if cfg is None:
+                out[label] = ["not-loaded"]
+                continue
+            d = diff(want, cfg)
+            out[label] = None if d is None else ["diff", d[0], d[1], ascii(d[2])[:200], ascii(d[3])[:200]]
+    finally:
+        set_root(prev)
+    return out
+
+
+def child_main():
+    """Runs in the ASCII-locale child: job on stdin (JSON), results on stdout (JSON, ASCII only)."""
+    import sys
+    import locale
+    job = json.loads(sys.stdin.buffer.read().decode("ascii"))
+    res = {"encoding": locale.getpreferredencoding(False), "utf8_mode": sys.flags.utf8_mode, "save": {}, "load": {}}
+    for spec, combo in job["save"]:
+        res["save"]["%d/%s-%s" % (spec["id"], combo[0], combo[1])] = loc_save(job["base"], spec, combo)
+    for spec, combo, saved in job["load"]:
+        key = "%d/%s-%s" % (spec["id"], combo[0], combo[1])
+        res["load"][key] = loc_load(job["base"], spec, combo, res["save"][key] if saved is None else saved)
+    sys.stdout.buffer.write(json.dumps(res).encode("ascii"))
+    sys.stdout.buffer.flush()
+
+
+def run_child(job):
+    import sys
+    import subprocess
+    envv = {k: v for k, v in os.environ.items()
+            if not (k.startswith("LC_") or k in ("LANG", "LANGUAGE", "PYTHONUTF8", "PYTHONIOENCODING", "PYTHONCOERCECLOCALE"))}
+    envv.update(ASCII_ENV)
+    envv["PYTHONPATH"] = env.VERIF_ROOT
+    envv["VERIF_REPO"] = env.REPO
+    envv["PYTHONDONTWRITEBYTECODE"] = "1"
+    code = "from vf.props import c19_config as c; c.child_main()"
+    p = subprocess.run([sys.executable if sys.executable.startswith("/venv/") else "/venv/bin/python", "-c", code],
+                       input=json.dumps(job).encode("ascii"), stdout=subprocess.PIPE, stderr=subprocess.PIPE,
+                       env=envv, cwd=env.VERIF_ROOT, timeout=600)
+    if p.returncode != 0:
+        raise RuntimeError("C19 harness: ASCII-locale child failed (%d): %s" % (p.returncode, p.stderr.decode("latin-1")[-800:]))
+    res = json.loads(p.stdout.decode("ascii"))
+    import codecs
+    if codecs.lookup(res["encoding"]).name != "ascii" or res["utf8_mode"]:
+        raise RuntimeError("C19 harness: child locale encoding is %r (utf8_mode=%r), expected ASCII"
+                           % (res["encoding"], res["utf8_mode"]))
+    return res
+
+
+def has_non_ascii(spec):
+    return any(isinstance(v, str) and not v.isascii() for v in loc_values(spec).values())
+
+
+def locale_axis(specs):
+    """All four save/load locale combinations for every spec; exactly one child process.
+    -> (violations, stats)"""
+    tally = Tally()
+    stats = {"configurations": len(specs), "non_ascii_configurations": sum(1 for sp in specs if has_non_ascii(sp)),
+             "combinations": len(COMBOS), "saves": 0, "loads": 0, "loads_non_ascii": 0, "equal_loads": 0, "by_combo": {}}
+    base = tempfile.mkdtemp(prefix="c19-loc-", dir=env.scratch_root())
+    try:
+        saved, loaded = {}, {}
+        for sp in specs:                                     # 1. host saves
+            for combo in COMBOS:
+                if combo[0] == "host":
+                    saved[(sp["id"], combo)] = loc_save(base, sp, combo)
+        job = {"base": base,                                # 2. the one child: its saves, then its loads
+               "save": [(sp, combo) for sp in specs for combo in COMBOS if combo[0] == "ascii"],
+               "load": [(sp, ("host", "ascii"), saved[(sp["id"], ("host", "ascii"))]) for sp in specs]
+                       + [(sp, ("ascii", "ascii"), None) for sp in specs]}     # None: what the child itself saved
+        res = run_child(job)
+        for sp in specs:
+            for combo in COMBOS:
+                key = "%d/%s-%s" % (sp["id"], combo[0], combo[1])
+                if combo[0] == "ascii":
+                    saved[(sp["id"], combo)] = res["save"][key]
+                if combo[1] == "ascii":
+                    loaded[(sp["id"], combo)] = res["load"][key]
+        for sp in specs:                                     # 3. host loads
+            for combo in (("host", "host"), ("ascii", "host")):
+                loaded[(sp["id"], combo)] = loc_load(base, sp, combo, saved[(sp["id"], combo)])
+        stats["child_encoding"] = res["encoding"]
+    finally:
+        shutil.rmtree(base, ignore_errors=True)
+    import locale
+    stats["host_encoding"] = locale.getpreferredencoding(False)
+
+    for sp in specs:
+        fmt = sp["fmt"]
+        na = has_non_ascii(sp)
+        for combo in COMBOS:
+            cname = "%s->%s" % combo
+            case = {"part": "locale", "spec": sp, "combo": list(combo)}
+            for label, r in sorted(saved[(sp["id"], combo)].items()):
+                stats["saves"] += 1
+                if r is not None:
+                    tally.outcomes.add(("locale", fmt, "%s save-raises:%s" % (combo[0], r[0])))
+                    tally.v("C19:locale:%s:%s->any:save-raises:%s" % (fmt, combo[0], r[0]),
+                            "saving a %s config (%s) in a process with %s locale encoding raised %s: %s"
+                            % (fmt, sp["tag"], combo[0], r[0], r[1]), dict(case, path=label), {"exception": r})
+            for label, r in sorted(loaded[(sp["id"], combo)].items()):
+                stats["loads"] += 1
+                tally.loads += 1
+                if na:
+                    stats["loads_non_ascii"] += 1
+                    tally.nontrivial += 1
+                bc = stats["by_combo"].setdefault(cname, {"equal": 0, "failed": 0})
+                if r is None:
+                    stats["equal_loads"] += 1
+                    bc["equal"] += 1
+                    tally.outcomes.add(("locale", fmt, cname + " equal"))
+                    continue
+                bc["failed"] += 1
+                if r[0] == "load-raises":
+                    sig, what = "load-raises:%s" % r[1], "raised %s: %s" % (r[1], r[2])
+                elif r[0] == "not-loaded":
+                    sig, what = "not-loaded", "found no config"
+                else:
+                    sig, what = "%s:%s" % (r[1], r[2]), "yields field %s different (%s)" % (r[1], r[2])
+                tally.outcomes.add(("locale", fmt, "%s %s" % (cname, sig)))
+                tally.v("C19:locale:%s:%s:%s" % (fmt, cname, sig),
+                        "a %s config (%s) saved under %s locale encoding and loaded via %s under %s locale encoding %s"
+                        % (fmt, sp["tag"], combo[0], label, combo[1], what), dict(case, path=label), {"result": r})
+    return tally.result(), stats
+
+
 # --------------------------------------------------------------------------- driver
 def run(ctx):
     from vf.runner import shuffled
@@ -813,13 +1064,21 @@ def run(ctx):
     for res in ctx.pimap(extras_chunk, [0]):
         absorb(res)
 
+    # ---- part 3: locale axis (one ASCII-locale child process)
+    from vf.runner import shuffled as _sh
+    lspecs = locale_specs(ctx.quick)
+    lres, lstats = locale_axis(_sh(lspecs, ctx.seed, "c19-locale"))
+    absorb(lres)
+    ctx.sample({"locale": {"spec": lspecs[3], "combinations": ["%s->%s" % c for c in COMBOS]}})
+
     n_cfg = sum(len(vectors_of(m, ctx.quick)) for m in range(1 << NF)) * 2
     ctx.coverage.update({
         "evaluations": totals["loads"],
         "distinct_nontrivial": totals["nontrivial"] + pstats["intermediate_states"],
         "rule": "round trip: a (field subset, value vector, format, load path) case with at least one field set whose "
                 "saved file was loaded by the real ConfigManager.load and compared field-wise; crash: a distinct on-disk "
-                "state strictly between the state before and after the save, loaded by the real ConfigManager.load",
+                "state strictly between the state before and after the save, loaded by the real ConfigManager.load; "
+                "locale: a load of a configuration with a non-ASCII text value in one of the four save/load locale combinations",
         "exhaustive": True,
         "configurations": n_cfg,
         "field_subsets": 1 << NF,
@@ -828,6 +1087,7 @@ def run(ctx):
         "sweep_items": len(sweeps),
         "text_code_points_swept": sum(b - a for a, b in text_ranges(ctx.quick)) - (0 if ctx.quick else 0x800),
         "crash": pstats,
+        "locale": lstats,
         "distinct_outcomes": len(outcomes),
         "outcomes": sorted("%s/%s/%s" % o for o in outcomes)[:40],
         "bound": ("all 2^16 subsets of the 16 Config fields x %s x 2 formats x 6 load paths; every byte "
@@ -840,6 +1100,8 @@ def run(ctx):
                "truncation point after open(...,'w'), the post-close point and all rename boundaries are exact")
     ctx.assume("supported file format = field names as keys, __version__, standard base64 for id/expid/edge_routing_info/"
                "server_static_public and for private||public of client_static_keypair; JSON one key per line as the library writes it")
+    ctx.assume("locale axis: 'host' is this process (locale encoding recorded in coverage.locale.host_encoding), 'ascii' a child "
+               "interpreter started with LC_ALL=C LANG=C PYTHONUTF8=0 PYTHONCOERCECLOCALE=0; other legacy encodings are not enumerated")
     ctx.assume("values use the types the library itself produces (phone/cc/mcc/mnc... as str), so key=value's string loading is not a loss")
 
 
@@ -850,6 +1112,10 @@ def replay(ctx, case):
         if "point" in case:
             vs = [v for v in vs if v[0].startswith("C19:crash:")]
         return vs
+    if case.get("part") == "locale":
+        spec = dict(case["spec"])
+        (vs, loads, nt, outs, paths), st = locale_axis([spec])
+        return [v for v in vs if v[2].get("combo") == case["combo"] and v[2].get("path") == case.get("path")]
     tally = Tally()
     mgr = ConfigManager()
     sweep = case.get("sweep")
